@@ -227,6 +227,7 @@ pub fn cmd_replay(path: &str) -> i32 {
         "codec" => crate::textfaults::replay_codec(),
         "stack" => crate::stack::replay(&file),
         "longgame" => crate::stack::replay_longgame(&file),
+        "longrep" => crate::stack::replay_longrep(&file),
         other => Err(format!("unknown replay mode {}", other)),
     };
     match res {
